@@ -254,6 +254,86 @@ pub fn card_mc(args: &[String]) {
             }
         }
     }
+    // other bases and register widths: b = 1.05 and b = 2 (u16), and a base very close to 1 with u32 registers
+    macro_rules! bias_of {
+        ($I:ty, $b:expr, $q:expr, $m:expr, $n:expr, $tr:expr) => {{
+            let params = SetSketchParams::new($b, $m, 20., $q);
+            let mut sum = 0.0f64;
+            let mut rsd = 0.0f64;
+            for t in 0..$tr {
+                crate::util::tick_idx(t, json!({"m": $m, "n": $n, "b": $b}));
+                let mut s = SetSketcher::<$I, u64, FnvHasher>::new(params, BuildHasherDefault::<FnvHasher>::default());
+                for _ in 0..$n { s.sketch(&(rng.next_u64() >> 4)).unwrap(); }
+                let (c, r) = s.get_cardinal_stats();
+                sum += (c - $n as f64) / $n as f64;
+                rsd = r;
+            }
+            let mean = sum / $tr as f64;
+            let allowed = 2. * rsd * rsd + 6. * rsd / ($tr as f64).sqrt();
+            if mean.abs() > allowed {
+                found.push(json!({"m": $m, "n": $n, "b": $b, "q": $q, "registers": stringify!($I), "mean_rel_err": mean, "allowed": allowed, "advertised_rsd": rsd, "trials": $tr, "seed": seed}));
+            }
+        }};
+    }
+    for n in [3u64, 100, 3000] {
+        bias_of!(u16, 1.05f64, 65534u64, 1024u64, n, trials);
+        bias_of!(u16, 2.0f64, 60u64, 1024u64, n, trials);
+    }
+    for n in [300u64, 30000] {
+        bias_of!(u32, 1.00001f64, 4194304u64, 4096u64, n, trials.min(150));
+    }
     crate::util::wd_pause();
     println!("{}", json!({"found": found}));
+}
+
+/// search aid for C07 (only after an obligation broke): the average fraction of equal registers of two sets against
+/// the exact collision probability of the SetSketch model (registers floor(1 - log_b X) of exponential minima with
+/// rates a|A\\B|, a|B\\A|, a|A n B|, clipped to [0, q+1]); |z| > 6 only
+fn coll_model(b: f64, a: f64, q: u64, na: f64, nb: f64, nc: f64) -> f64 {
+    let top = q + 1;
+    let lnb = b.ln();
+    let s = |ta: f64, tb: f64| -> f64 { (-a * (na * ta + nb * tb + nc * ta.max(tb))).exp() };
+    let mut p = s(1., 1.);
+    for k in 1..=top {
+        let hi = (-(k as f64 - 1.) * lnb).exp();
+        let lo = if k == top { 0. } else { (-(k as f64) * lnb).exp() };
+        p += s(lo, lo) - s(hi, lo) - s(lo, hi) + s(hi, hi);
+    }
+    p
+}
+pub fn coll_mc(args: &[String]) {
+    let seed = arg_u64(args, "--seed", 1);
+    let scale = arg_u64(args, "--trials", 400) as usize;
+    let mut rng = SplitMix64::new(seed ^ 0xC07BB);
+    let mut rows: Vec<Value> = Vec::new();
+    let a = 20.0f64;
+    for (b, q, m, na, nb, nc, tr) in [(2.0f64, 60u64, 64u64, 3usize, 3usize, 0usize, 10 * scale), (2.0, 60, 64, 5, 5, 5, 10 * scale),
+                                      (1.001, 65534, 256, 10, 10, 10, 3 * scale), (2.0, 60, 64, 50, 50, 0, 3 * scale),
+                                      (2.0, 60, 64, 500, 500, 500, scale), (2.0, 60, 256, 2000, 2000, 0, scale / 2),
+                                      (1.5, 100, 64, 1000, 3000, 1000, scale / 2), (1.2, 250, 32, 2000, 2000, 2000, scale / 2)] {
+        let params = SetSketchParams::new(b, m, a, q);
+        let mut sa = SetSketcher::<u32, u64, FnvHasher>::new(params, BuildHasherDefault::<FnvHasher>::default());
+        let mut sb = SetSketcher::<u32, u64, FnvHasher>::new(params, BuildHasherDefault::<FnvHasher>::default());
+        let (mut sum, mut sum2) = (0f64, 0f64);
+        for t in 0..tr {
+            crate::util::tick_idx(t as u64, json!({"b": b, "m": m, "na": na, "nb": nb, "nc": nc}));
+            sa.reinit();
+            sb.reinit();
+            for _ in 0..na { sa.sketch(&rng.next_u64()).unwrap(); }
+            for _ in 0..nb { sb.sketch(&rng.next_u64()).unwrap(); }
+            for _ in 0..nc { let x = rng.next_u64(); sa.sketch(&x).unwrap(); sb.sketch(&x).unwrap(); }
+            let eq = sa.get_signature().iter().zip(sb.get_signature().iter()).filter(|(x, y)| x == y).count();
+            let f = eq as f64 / m as f64;
+            sum += f;
+            sum2 += f * f;
+        }
+        let t = tr as f64;
+        let mean = sum / t;
+        let var = (sum2 / t - mean * mean).max(0.) * t / (t - 1.);
+        let se = (var / t).sqrt().max(1e-12);
+        let p = coll_model(b, a, q, na as f64, nb as f64, nc as f64);
+        rows.push(json!({"b": b, "q": q, "m": m, "a_only": na, "b_only": nb, "both": nc, "trials": tr, "mean": mean, "p": p, "z": (mean - p) / se, "seed": seed}));
+    }
+    crate::util::wd_pause();
+    println!("{}", json!({"rows": rows}));
 }
